@@ -135,14 +135,14 @@ PROPS = {
                       "every HttpError variant maps to its documented status with body exactly the kind name / the fixed 413 text / the fixed "
                       "500 text for arbitrary payload strings; is_1xx..is_5xx agree with the numeric class for all 65536 codes. Deductive "
                       "(Verus, unbounded): a 5xx response sent through HttpConn::write_response goes out with the field `connection: close` "
-                      "right after the status line / content-type, and the write side is shut down after it. From<HttpError> for Response (Verus, every error value with every payload): the status is that of the error's class (err_code, written from the property), a server-caused error gets the body StaticStr(\"Internal server error\") and BodyTooLong the fixed 413 text -- functions of a literal alone, so no payload text (paths, OS messages) can reach the client.",
+                      "right after the status line / content-type, and the write side is shut down after it. From<HttpError> for Response (Verus, every error value with every payload): the status is that of the error's class (err_code, written from the property), a server-caused error gets a body that says exactly `Internal server error` (as a static text or as its bytes) and BodyTooLong the fixed 413 text -- functions of a literal alone, so no payload text (paths, OS messages) can reach the client.",
         "level_note": "Kani/CBMC trusted; payload strings are 0..2 arbitrary chars (the mapping never inspects them).",
         "verus": ["conn", "respwrite", "errresp"],
         "kani": ["c20"],
         "witness": "c20",
         "assumptions": [
             "the harnesses run on a scratch copy of the working tree with the harness module appended under cfg(kani)",
-            "unit errresp, rule S1: the anonymous `impl Into<ResponseBody>` parameter of Response::text / with_body is named (`<B: Into<ResponseBody>>`), so that the conversion is carried as call_ensures(<B as Into<ResponseBody>>::into, ..) and resolved through vstd's blanket Into specification to the proved From<&'static str> for ResponseBody (== StaticStr(s)); two `&str` with the same characters are the same value",
+            "unit errresp, rule S1: the anonymous `impl Into<ResponseBody>` parameter of Response::text / with_body is named (`<B: Into<ResponseBody>>`), so that the conversion is carried as call_ensures(<B as Into<ResponseBody>>::into, ..) and resolved through vstd's blanket Into specification to the proved From<&'static str> for ResponseBody (== StaticStr(s)) / From<String> for ResponseBody (== Vec of String::into_bytes, whose result is the uninterpreted text_bytes of the text); two `&str` with the same characters are the same value",
             "payload strings of the three payload-carrying variants range over 0..=2 arbitrary Unicode scalar values; the mapping code never reads them",
         ],
         "not_covered": [
